@@ -30,13 +30,15 @@ IndexOK(e, n) ==
 
 Check(e) ==
     /\ IF e.unit_out # e.unit_in THEN Fail(e, "unit-differs", <<e.unit_in, e.unit_out>>) ELSE TRUE
+    /\ IF e.off_lattice THEN Fail(e, "value-is-not-a-whole-number-where-the-rule-gives-one:" \o e.fn, <<>>) ELSE TRUE
     /\ CASE e.fn = "list" -> Same(e, FromList(e.list, e.start))
          [] e.fn = "frequency" ->
               Same(e, FromFrequency(e.span, e.volume, e.freq,
                                     IF e.days_given THEN SeqSet(e.days) ELSE DefaultDays(e.freq),
                                     IF e.hours_given THEN SeqSet(e.hours) ELSE DefaultHours, e.start))
          [] e.fn = "daily_volume" ->
-              /\ Same(e, FromFrequency(e.span, e.per_hour, "daily", {}, SeqSet(e.hours), e.start))
+              \* the volume is shared between the DISTINCT chosen hours (a list may name an hour twice)
+              /\ Same(e, FromFrequency(e.span, e.volume \div Cardinality(SeqSet(e.hours)), "daily", {}, SeqSet(e.hours), e.start))
               /\ \A day \in DayOf(e.start)..DayOf(e.start + e.span) :
                     (day * 24 >= e.start /\ day * 24 + 23 <= e.start + e.span) =>
                        IF SumOver(Got(e), {day * 24 + h : h \in 0..23}) # e.volume
